@@ -131,7 +131,10 @@ func (p *projSpec) extFiles(i, v int) map[string]string {
 	var sb strings.Builder
 	fmt.Fprintf(&sb, "# lib.dawn of %s\n", extPath(i))
 	if j := p.extDep(i, v); j >= 0 {
-		fmt.Fprintf(&sb, "load(\"dep//:lib.dawn\", \"ext%d_f\")\n", j)
+		// (every lib.dawn exports its helper under the common name ext_f too, so that the
+		// load statement reads the same whichever project is behind the alias)
+		_ = j
+		sb.WriteString("load(\"dep//:lib.dawn\", dep_f = \"ext_f\")\n")
 	}
 	if e.Util {
 		fmt.Fprintf(&sb, "load(\"//:util.dawn\", \"EXT%d_U\")\n", i)
@@ -152,9 +155,9 @@ func (p *projSpec) extFiles(i, v int) map[string]string {
 		// a global of this module computed while it loads from what the other project
 		// provides: its value depends on the version the build list selects for that project,
 		// not on this module's text
-		fmt.Fprintf(&sb, "EXT%d_D = [ext%d_f(), %d]\n", i, j, i)
+		fmt.Fprintf(&sb, "EXT%d_D = [dep_f(), %d]\n", i, i)
 		if !e.ViaGlobal {
-			parts = append(parts, fmt.Sprintf("ext%d_f()", j))
+			parts = append(parts, "dep_f()")
 		}
 		parts = append(parts, fmt.Sprintf("EXT%d_D", i))
 	}
@@ -162,7 +165,7 @@ func (p *projSpec) extFiles(i, v int) map[string]string {
 	if e.Util {
 		parts = append(parts, fmt.Sprintf("EXT%d_U", i))
 	}
-	fmt.Fprintf(&sb, "def ext%d_f(n = 0):\n    return (%s,)\n", i, strings.Join(parts, ", "))
+	fmt.Fprintf(&sb, "def ext%d_f(n = 0):\n    return (%s,)\n\next_f = ext%d_f\n", i, strings.Join(parts, ", "), i)
 	out["lib.dawn"] = sb.String()
 	return out
 }
